@@ -109,6 +109,11 @@ STATE    Target.state lists `self.x` attributes (lists) that the function update
 RECURSION a function that calls itself becomes `Fixpoint f (fuel : nat) ... := match fuel with O => OutOfFuel | S fuel => ..`;
           the first call from outside passes Target.fuel (a Gallina term over the caller's parameters).
 TARGET MODES  "function": a def (possibly a method, found by qualified name); its Target.atoms / Target.state are extra parameters;
+          "decision": one `if` statement of a loop body (Target.stop_before), or a whole function body (stop_before = None), as the
+          function (tags of the actions executed, in order; ends with `continue` / `return`?) of Target.atoms.  An action is an
+          assignment / expression statement / return whose source text starts with a key of Target.actions (a statement with tensor
+          side effects: what it computes is not a value here); `return x` of a name ends the function; an `if` whose branches only
+          log is dropped even if its test is not translatable; raise statements are `Raise E k` as usual;
           "alias": Class.method resolved through the single-inheritance chain of classes in the file: the translation of the
           defining class's method (an earlier target) gets the name Target.coq_name, `Ret tt` if no class of the chain defines it
           (the chain must end in a class named in Target.names, assumed not to define the method);  "exprs": the right-hand sides of the unique
@@ -170,6 +175,7 @@ class Target:
     site_base: int = 0             # added to the ordinals of this function's raise/assert sites (unique sites across functions)
     calls: dict = field(default_factory=dict)        # source text of a callee expression -> coq_name of a function translated earlier in the run
     state: list = field(default_factory=list)        # [(source text, name, type)]: lists owned by `self` that the function updates in place
+    actions: dict = field(default_factory=dict)      # mode "decision": source text of a statement with (tensor) side effects -> its tag (int)
     foreign: dict = field(default_factory=dict)      # source text of a foreign function -> (Gallina function, [argument types], result type,
                                                      # exception class or None): a parameter of the generated module, pure and total
                                                      # (None) or partial (returns option; None = the exception)
@@ -734,6 +740,11 @@ class Fn:
             if not is_list(t):
                 raise Untranslatable(n, f"filter over a {t}")
             return b, f"(filter {self.pure_lambda(args[0].args.args[0].arg, args[0].body, env, elem(t), n)} {c})", t
+        if f == "any" and len(args) == 1 and not isinstance(args[0], ast.GeneratorExp) and not kws:
+            b, c, t = self.expr(args[0], env)
+            if t != "list bool":
+                raise Untranslatable(n, f"any(..) of a {t}")
+            return b, f"(existsb (fun b_ => b_) {c})", "bool"
         if f == "all" and len(args) == 1 and not isinstance(args[0], ast.GeneratorExp):
             b, c, t = self.expr(args[0], env)
             if t != "list bool":
@@ -829,6 +840,10 @@ class Fn:
             return k(env)
         s, rest = stmts[0], stmts[1:]
         nxt = lambda e: self.block(rest, e, k)                                    # noqa: E731
+        tag = next((t for pre, t in self.tgt.actions.items() if unp(s).startswith(pre)), None) if self.tgt.actions else None
+        if tag is not None and isinstance(s, (ast.Assign, ast.Expr, ast.Return)):  # decision mode: a statement with (tensor) side effects
+            code = f"let acts_ := (acts_ ++ [({tag})]) in\n"                       # is recorded by its tag; what it binds is not a value here
+            return code + ("Ret (acts_, true)" if isinstance(s, ast.Return) else nxt(env))
         m = getattr(self, "s_" + type(s).__name__, None)
         if m is None:
             raise Untranslatable(s, f"statement form {type(s).__name__} is outside the subset")
@@ -985,6 +1000,11 @@ class Fn:
             raise Untranslatable(call, f"{unp(call.func)} on a {env.get(h)} (heapify: a list of int pairs; the others: a list that was heapified)")
         return h
 
+    def s_Continue(self, s, env, nxt):
+        if not self.tgt.actions:
+            raise Untranslatable(s, "continue outside the decision mode")
+        return "Ret (acts_, true)"
+
     def s_Expr(self, s, env, nxt):
         v = s.value
         if isinstance(v, ast.Call) and unp(v.func) == "heapq.heapify":
@@ -1029,6 +1049,13 @@ class Fn:
         return nxt(env)
 
     def s_Return(self, s, env, nxt):
+        if getattr(self, "decision", False):               # decision mode: the returned value is not modelled, only that the function ends here
+            if s.value is not None and not isinstance(s.value, ast.Name):
+                raise Untranslatable(s, "decision mode: `return <expression>` must be listed in Target.actions")
+            return "Ret (acts_, true)"
+        return self.s_Return_value(s, env, nxt)
+
+    def s_Return_value(self, s, env, nxt):
         if s.value is None:
             if self.ret_unit:
                 return self.ret("tt")
@@ -1078,6 +1105,8 @@ class Fn:
                         return nxt({**e, x: union, "@ren": ren})
                 branches.append(f"| {ctor} {x + suffix} =>\n{self.block(stmts, e1, after)}")
             return f"match {self.gname(x, env)} with\n" + "\n".join(branches) + "\nend"
+        if self.tgt.actions and self.no_effect(s.body) and self.no_effect(s.orelse):
+            return nxt(env)        # decision mode: `if <anything>: logging.warning(..)` - the test may mention results of actions; assumed not to raise
         if self.no_effect(s.body) and self.no_effect(s.orelse) and not self.truthy(t, env)[0]:
             return nxt(env)                                                        # e.g. `if c: logger.warning(..)` with a pure c
         pre = ""
@@ -1243,7 +1272,7 @@ class Translator:
             return self.alias(tgt)
         src, node = self.find(tgt)
         n0, self.funcs = len(self.out), {}
-        {"function": self.function, "exprs": self.exprs, "prefix": self.prefix}[tgt.mode](node, tgt)
+        {"function": self.function, "exprs": self.exprs, "prefix": self.prefix, "decision": self.decision}[tgt.mode](node, tgt)
         self.record(tgt, src, node, [d.split()[1] for d in self.out[n0:]])
 
     @staticmethod
@@ -1371,6 +1400,23 @@ class Translator:
                     fn.inline[st.targets[0].id] = st.value
             b, c, t = fn.expr(hits[0].value, {})
             self.emit(tgt.prefix + name, False, [(p, ty) for _, p, ty in tgt.atoms], t, fn.wrap(b, f"Ret {c}"))
+
+    def decision(self, fdef, tgt):
+        """mode "decision": ONE statement of the function, the unique one whose text starts with Target.stop_before (an `if` that
+        ends some paths with `continue`), as a function of Target.atoms: which of the statements listed in Target.actions (statements
+        with tensor side effects, by their source text) are executed, in order, and whether the path ends with `continue` (true) or
+        falls through to the rest of the loop body (false): result (list Z * bool).  Anything else in it must be in the subset."""
+        if tgt.stop_before is None:
+            hits = fdef.body                               # the whole function: which actions run, and does it end by `return` (true)
+        else:
+            hits = [s for s in ast.walk(fdef) if isinstance(s, ast.stmt) and unp(s).startswith(tgt.stop_before)]
+            if len(hits) != 1:
+                raise Untranslatable(tgt.qualname, f"expected exactly one statement starting with `{tgt.stop_before}`, found {len(hits)}")
+        fn = Fn(self, tgt, fdef.name, False)
+        fn.sites = self.sites_of(fdef)
+        fn.decision = True
+        body = fn.block(hits, {"acts_": "list Z"}, lambda e: "Ret (acts_, false)")
+        self.emit(tgt.prefix + (tgt.coq_name or fdef.name), False, [(p, ty) for _, p, ty in tgt.atoms], "list Z * bool", "let acts_ := [] in\n" + body)
 
     def prefix(self, fdef, tgt):
         idx = next((i for i, s in enumerate(fdef.body) if unp(s).startswith(tgt.stop_before)), None)
